@@ -54,6 +54,11 @@ impl Monitor for C07 {
                 }
             }
         }
+        // fixed probe of the recorded finding, so that every run reports whether it is still there
+        if ctx.mine() {
+            let a = DecV { neg: true, mant: 39614081257132168796771975167, scale: 0 };
+            ctx.check(&Case::new(ev, "depth1", "@%0.200000000000000000000000002", Val::D(a)), &|c, st| self.judge(c, st));
+        }
         // random operands of varied scale and magnitude
         let n1 = ctx.tier.pick(60_000u64, 1_000_000);
         for i in 0..n1 {
@@ -116,7 +121,14 @@ impl Monitor for C07 {
                 "quotients_within_bound"
             });
         }
-        to_verdict("C07", case.ev, &shape_of(&p.ast), rv, false)
+        // a remainder whose operands cannot be brought to a common scale within 96 bits is a region of
+        // its own (rust_decimal's remainder is wrong there: see known_findings.json); every other
+        // violation keeps its operator shape as signature
+        let shape = match (&rv, &case.phs[0]) {
+            (RefVerdict::Bad("wrong-value", _), Val::D(ph)) if has_rescale_overflow_mod(&p.ast, ph) => "mod-with-rescale-overflow".to_string(),
+            _ => shape_of(&p.ast),
+        };
+        to_verdict("C07", case.ev, &shape, rv, false)
     }
     fn rule(&self) -> &'static str {
         "depth-1: + - * / % (and mod) over every ordered pair of the boundary pool (scales 0..28, 27/28-digit coefficients at scales 0,1,14,27,28, Decimal::MAX and neighbours, negatives, zeros of every scale) as literals and through @, plus random operands of 1..29 digits and scale 0..28; trees of depth<=5 over + - * and unary minus with / or % near the root; oracle = exact rational arithmetic on the harness's own big integers: representable results must be numerically equal, non-representable quotients within 1e-27*max(1,|q|), zero divisors and results beyond +-Decimal::MAX must be Err (a panic counts as a violation); in-range results that need rounding are unspecified; non-trivial = the reference gives a verdict; distinct = distinct (expression, placeholder)"
@@ -127,4 +139,28 @@ impl Monitor for C07 {
     fn floors(&self, _t: Tier) -> Vec<(String, u64)> {
         vec![("required_errors_observed".into(), 500), ("exact_values_confirmed".into(), 10_000), ("quotients_within_bound".into(), 500)]
     }
+}
+
+/// Does the tree contain a remainder (% or mod) whose operands, as the reference evaluates them,
+/// cannot be rescaled to a common scale without exceeding 96 bits?
+fn has_rescale_overflow_mod(ast: &Ast, ph: &DecV) -> bool {
+    use crate::ref_dec::{self, RD};
+    let here: Option<(&Ast, &Ast)> = match ast {
+        Ast::Bin(Op::Mod, a, b) => Some((a.as_ref(), b.as_ref())),
+        Ast::Call(Func::Mod, _, args) if args.len() == 2 => Some((&args[0], &args[1])),
+        _ => None,
+    };
+    if let Some((a, b)) = here {
+        if let (RD::Exact(x), RD::Exact(y)) = (ref_dec::eval(a, ph), ref_dec::eval(b, ph)) {
+            if let (Some((_, mx, sx)), Some((_, my, sy))) = (x.as_decimal(28), y.as_decimal(28)) {
+                let s = sx.max(sy);
+                let lim = crate::bigint::BigU::pow2(96);
+                let up = |m: u128, from: u32| crate::bigint::BigU::from_u128(m).mul(&crate::bigint::BigU::pow10(s - from));
+                if up(mx, sx) >= lim || up(my, sy) >= lim {
+                    return true;
+                }
+            }
+        }
+    }
+    ast.children().iter().any(|c| has_rescale_overflow_mod(c, ph))
 }
